@@ -210,7 +210,7 @@ impl Scenario for C20Seq {
                 backend: BackendSel::random(&mut w),
                 files: w.chance(2, 3),
                 out,
-                bp: BuilderPath { output_first: w.chance(1, 2), batch_paths: w.chance(1, 2), swap_backend: w.chance(1, 6), swap_late: w.chance(1, 2), legacy_path: w.chance(1, 6) },
+                bp: BuilderPath { output_first: w.chance(1, 2), batch_paths: w.chance(1, 2), swap_backend: w.chance(1, 6), swap_late: w.chance(1, 2), legacy_path: w.chance(1, 6), output_mid: w.chance(1, 4) },
                 thread: if threads == 1 { 0 } else if i < threads { i } else { w.below(threads) },
             });
         }
@@ -357,7 +357,7 @@ impl Scenario for C20Seq {
             let hard_open_w = fired.iter().any(|(_, f)| !is_benign(f) && f.cls == shim::C_OPEN_W);
             let hard_write = fired.iter().any(|(_, f)| !is_benign(f) && f.cls == shim::C_WRITE);
             let close_fault = fired.iter().any(|(_, f)| f.cls == shim::C_CLOSE);
-            let stat_dest_fault = fired.iter().any(|(e, f)| f.cls == shim::C_STAT && !e.path.starts_with(&format!("op{i}/src/")));
+            let stat_dest_fault = fired.iter().any(|(e, f)| f.cls == shim::C_STAT && f.kind == shim::F_ERRNO && !e.path.starts_with(&format!("op{i}/src/")));
             out.count(&format!("out.{}", match &op.out { Out::FileAbsent => "FileAbsent", Out::FileExisting { .. } => "FileExisting", Out::DirEmpty => "DirEmpty", Out::DirWithOld => "DirWithOld", Out::Stdout => "Stdout", Out::NoOutput => "NoOutput" }), 1);
             let delivered: Option<Vec<u8>> = match &op.out {
                 Out::Stdout => Some(rep.stdout.clone()),
